@@ -1,8 +1,9 @@
 (* Executable wrappers for the C17 catalogue tables and checkers. *)
 From Coq Require Import ZArith QArith Qcanon List Bool Arith Lia.
+From Coq Require String Ascii.
 From QV.Core Require Import OF QcOF Sums Mat Cplx C17_Z8.
 From QV.Exec Require Import Base Core_ops.
-From QV.Model Require Import QObj HermEmbed C17_Tables C17_Catalogue C17_Permute.
+From QV.Model Require Import QObj HermEmbed C17_Tables C17_Catalogue C17_Permute C17_Names.
 Import ListNotations.
 
 (* ---------- name encodings (lists of integers) ---------- *)
@@ -204,6 +205,36 @@ Definition op_matp : opfun := fun zs _ =>
       Ok (flat_map (fun i => map (fun j => qb (matP ids i j)) (seq 0 k)) (seq 0 k))
   | _ => Err (-1) end.
 
+(* ---------- named catalogues (Model/C17_Names.v): entries as  len(name) :: character codes ++ len(code) :: code *)
+Definition str_codes (s : String.string) : list Z := map (fun c => Z.of_N (Ascii.N_of_ascii c)) (String.list_ascii_of_string s).
+Definition entry_flat (name : String.string) (code : list Z) : list Z := (withlen (str_codes name) ++ withlen code)%list.
+Definition terms_flat (ts : list (nat * nat * nat)) : list Z := flat_map (fun t => let '(a, b, c) := t in [zn a; zn b; zn c]) ts.
+(* zs = [family; system] : family 0 states (code of c17.state), 1 POVMs (codes of c17.povm), 2 gates of 1-3 qubits / 1 qutrit (index k),
+   3 measurement processes (k, system), 4 one-term 2-qutrit gates (b0 b1 k) *)
+Definition op_cat : opfun := fun zs _ =>
+  match zs with
+  | [fam; sys] =>
+      let sys' := Z.to_nat sys in
+      let l := match fam with
+               | 0%Z => flat_map (fun e => entry_flat (fst e) (encode_s (snd e))) (cat_states sys')
+               | 1%Z => flat_map (fun e => entry_flat (fst e) (map zn (snd e))) (cat_povms sys')
+               | 2%Z => flat_map (fun e => entry_flat (fst e) [zn (snd e)]) (cat_gates sys')
+               | 3%Z => flat_map (fun e => entry_flat (fst e) [zn (snd e); zn (mproc_sys (snd e))]) cat_mprocs
+               | _ => flat_map (fun e => entry_flat (fst e) (terms_flat (snd e))) cat_gates_2qutrit_single
+               end in Ok (map qz l)
+  | _ => Err (-1) end.
+(* zs = [start; count] : that slice of the two-term 2-qutrit names, each with its six term numbers; zs = -1 :: indices : those entries;
+   zs = [] : [number of names] *)
+Definition op_cat2t : opfun := fun zs _ =>
+  match zs with
+  | [] => Ok [qz (zn (List.length cat_gates_2qutrit_double))]
+  | (-1)%Z :: idx =>                  (* the entries with the given indices *)
+      let l := cat_gates_2qutrit_double in
+      Ok (map qz (flat_map (fun i => match nth_error l (Z.to_nat i) with Some e => entry_flat (fst e) (terms_flat (snd e)) | None => [] end) idx))
+  | [start; count] =>
+      Ok (map qz (flat_map (fun e => entry_flat (fst e) (terms_flat (snd e))) (firstn (Z.to_nat count) (skipn (Z.to_nat start) cat_gates_2qutrit_double))))
+  | _ => Err (-1) end.
+
 Definition C17_ops : optable :=
   [ ("c17.state"%string, op_state); ("c17.gate"%string, op_gate); ("c17.triples"%string, op_triples);
     ("c17.triple_holds"%string, op_triple_holds);
@@ -211,4 +242,4 @@ Definition C17_ops : optable :=
     ("c17.povm"%string, op_povm); ("c17.mproc"%string, op_mproc); ("c17.ham2t"%string, op_ham2t);
     ("c17.hs_kraus"%string, op_hs_kraus); ("c17.vecs"%string, op_vecs); ("c17.lind"%string, op_lind);
     ("c17.apply"%string, op_apply); ("c17.opvec"%string, op_opvec); ("c17.unitary_res"%string, op_unitary_res);
-    ("c17.permute"%string, op_permute); ("c17.matp"%string, op_matp) ].
+    ("c17.permute"%string, op_permute); ("c17.matp"%string, op_matp); ("c17.cat"%string, op_cat); ("c17.cat2t"%string, op_cat2t) ].
